@@ -99,6 +99,9 @@ type Def struct {
 	// NullGridFirst: "+nadgrids=@null" is written BEFORE the +datum clause of a named datum. Options take effect in the
 	// order in which they are written: the datum named afterwards is the datum of the definition again.
 	NullGridFirst bool `json:"null_grid_first,omitempty"`
+	// NoneSpelling (definitions without a datum only): the absence of a datum is written out, as "+datum=none" or
+	// "+nadgrids=@null"
+	NoneSpelling string `json:"none_spelling,omitempty"`
 }
 
 func f(v float64) string { return strconv.FormatFloat(v, 'f', -1, 64) } // no exponent: '+' separates PROJ.4 parameters
@@ -187,6 +190,9 @@ func (d Def) String() string {
 			s[i] = f(v)
 		}
 		w("+towgs84=" + strings.Join(s, ","))
+	}
+	if d.DatumKind == "" && d.NoneSpelling != "" {
+		w(d.NoneSpelling)
 	}
 	if d.PM != "" {
 		w("+pm=" + d.PM)
